@@ -583,6 +583,7 @@ func coordinate(prop, tier string) int {
 	}
 	sort.Strings(sigs)
 	nviol := 0
+	var unconfirmed []string
 	for _, sig := range sigs {
 		vv := bySig[sig]
 		plan := vv.plan
@@ -592,13 +593,27 @@ func coordinate(prop, tier string) int {
 		}
 		path, confirmed, detail := minimiseAndWrite(pl, prop, vv.job, plan, vv.v)
 		if !confirmed {
-			fmt.Printf("HARNESS-TROUBLE: violation %s (seed %d) did not reproduce on replay: %s\n", sig, vv.job.Seed, detail)
-			return 2
+			unconfirmed = append(unconfirmed, fmt.Sprintf("violation %s (seed %d) did not reproduce on replay: %s", sig, vv.job.Seed, detail))
+			continue
 		}
 		nviol++
 		fmt.Printf("violation: %s\n  %s\n", sig, detail)
 		fmt.Printf("VIOLATION property=%s replay=%s\n", prop, path)
 		exit = 1
+	}
+	// a violation that does not fail again when its plan runs alone is not
+	// reported as one. If nothing else was confirmed that is harness trouble;
+	// next to confirmed violations it is noted and dropped (a broken engine
+	// can be nondeterministic by itself: flushPages walks a Go map, so a
+	// flush that fails half-way leaves a file that depends on the map order)
+	if len(unconfirmed) > 0 {
+		if nviol == 0 && pinnedViol == 0 {
+			fmt.Printf("HARNESS-TROUBLE: %s\n", unconfirmed[0])
+			return 2
+		}
+		for _, u := range unconfirmed {
+			fmt.Printf("NOTE: %s (dropped: other violations of this run were confirmed)\n", u)
+		}
 	}
 	wall := time.Since(start).Seconds()
 	nviol += pinnedViol
